@@ -20,7 +20,7 @@ def build_calibration(spec: dict):
         "target_data_path": m.pop("target_data_path"),
         "fitness_function": FitnessFunction(func=ff["func"], arguments=ff.get("arguments")),
         "algorithm": Algorithm(**m.pop("algorithm")),
-        "parameters": [ParameterValues(**p) for p in m.pop("parameters")],
+        "parameters": [ParameterValues(**_param_kwargs(p)) for p in m.pop("parameters")],
     }
     if "result_input_arguments" in m:
         kw["result_input_arguments"] = [ParameterValues(**p) for p in m.pop("result_input_arguments")]
@@ -38,6 +38,14 @@ def build_calibration(spec: dict):
         kw["pipeline_seed"] = spec["pipeline_seed"]
     kw.update(m)
     return Calibration(**kw)
+
+
+def _param_kwargs(p: dict) -> dict:
+    """JSON description of a calibrated variable -> ParameterValues arguments ('values_as_tuple': the placeholders are given as a tuple)."""
+    p = dict(p)
+    if p.pop("values_as_tuple", False) and isinstance(p.get("values"), list):
+        p["values"] = tuple(p["values"])
+    return p
 
 
 def make_problem(cal, detector, pipeline, with_inherited_coords=True):
